@@ -200,6 +200,11 @@ class Ctx:
         """compile a generated .v (model regenerated from the source + proofs over it)."""
         path = os.path.join(self.work, name + '.v')
         open(path, 'w').write(vtext)
+        if re.search(r'\b(Admitted|admit|Axiom|Axioms|Parameter|Parameters|Conjecture|Admit Obligations)\b|Unset Guard|Unset Positivity|Unset Universe', strip_coq_comments(vtext)):
+            self.broken.append({'theorem': '%s (generated file declares an axiom or admits a proof)' % name, 'where': path, 'log': ''})
+            for n in theorem_names:
+                self.obligations.append((n, False, []))
+            return False, ''
         rc, out, err = run_coqc(path, extra_R=[(self.work, 'Gen')])
         self.checker_cmds.append('coqc -R coq Spectrum -R <work> Gen <work>/%s.v  (regenerated from %s/src on this run)' % (name, REPO))
         if rc != 0:
